@@ -31,6 +31,28 @@ def self_tests():
             raise HarnessError(f'reference self-test failed in {mod.__name__}: {ex!r}')
 
 
+def _watchdog(seconds, prop):
+    """a wall-clock budget hit is a harness problem (inconclusive, exit 2), never a VIOLATION"""
+    import signal
+
+    def on_alarm(signum, frame):
+        sys.stderr.write(f'HARNESS-ERROR: {prop} exceeded its wall-clock guard of {seconds}s (inconclusive)\n')
+        sys.stderr.flush()
+        try:
+            os.setpgrp()
+        except Exception:
+            pass
+        import multiprocessing
+        for c in multiprocessing.active_children():
+            try:
+                c.kill()
+            except Exception:
+                pass
+        os._exit(2)
+    signal.signal(signal.SIGALRM, on_alarm)
+    signal.alarm(seconds)
+
+
 def _main():
     args = sys.argv[1:]
     if not args or args[0] not in PROPS:
@@ -64,6 +86,7 @@ def _main():
         print('tier must be quick or thorough', file=sys.stderr)
         return 2
     random.seed(seed)
+    _watchdog(int(os.environ.get('VERIF_WALL', '1500' if tier == 'quick' else '14400')), prop)
     ctx = Ctx(prop, tier, seed, level=getattr(mod, 'LEVEL', 'exploration'))
     ctx.rule = getattr(mod, 'RULE', '')
     ctx.assumptions = list(getattr(mod, 'ASSUMPTIONS', []))
